@@ -110,7 +110,7 @@ def build_program(shape, with_clone=True):
     return src, exp, {"ord": can_ord, "hash": can_hash}
 
 
-def hier_program(depth, kind="class"):
+def hier_program(depth, kind="class", with_methods=True):
     """A class hierarchy `depth` levels deep (each level adds one int field); the deepest class derives everything.
     Declaration order of the fields is oldest ancestor first. Values: all 0/1 vectors, so that levels disagree in direction."""
     names = ["Base", "Mid", "Leaf"][:depth]
@@ -118,7 +118,7 @@ def hier_program(depth, kind="class"):
     decl = ""
     for i, (n, f) in enumerate(zip(names, fields)):
         head = f"{kind} {n}" + (f" extends {names[i - 1]}" if i else "") + ":"
-        decl += f"@derive(Debug, Clone, Eq, Ord, Hash, Serialize, Deserialize)\n{head}\n    {f}: int\n\n    def tag{i}(self) -> int:\n        return {i}\n\n\n"
+        decl += f"@derive(Debug, Clone, Eq, Ord, Hash, Serialize, Deserialize)\n{head}\n    {f}: int\n" + (f"\n    def tag{i}(self) -> int:\n        return {i}\n" if with_methods else "") + "\n\n"
     top = names[-1]
     vals = list(itertools.product((0, 1), repeat=depth))
     lines, exp = [], []
@@ -201,6 +201,8 @@ def run(tier):
     for depth in (1, 2, 3):
         src, exp, caps = hier_program(depth)
         cases.append((("class-hierarchy", f"depth{depth}"), src, exp, caps))
+        src, exp, caps = hier_program(depth, with_methods=False)
+        cases.append((("class-hierarchy", f"depth{depth}", "no-methods"), src, exp, caps))
     fr = serve.run_requests([{"id": i, "op": "front", "src": c[1], "emit": False} for i, c in enumerate(cases)])
     # `.clone()` is documented for @derive(Clone) but the checker of the pinned tree rejects it on models: where that is the
     # only complaint, the clone observation is dropped for that shape (recorded in the evidence) instead of losing the shape
